@@ -1,8 +1,11 @@
 (** C20 — The metrics exporter cannot be wedged by its clients.
     Only statements closed by [exact]; proofs live in Exporter/AcceptLemmas.v.
     Model: Exporter/AcceptLoop.v.  [step_impl] = [step_fixed] = the accept loop of
-    exporter.rs as it is since the F19 repair (commit b7381c9); it is the model
-    tied to the real binary ([run]).  [step_before_fix] is the loop before that
+    exporter.rs as it is since the F19 repair (commit b7381c9), INCLUDING the
+    response buffer that lives across requests; it is the model tied to the real
+    binary ([run]).  Scripts carry, per connection, what the reads return, the
+    handler's outcome with the bytes it appended to the buffer, and the outcome
+    of write_all - so a write error is possible on the 200 AND on the 500 path.  [step_before_fix] is the loop before that
     commit, kept for the historic refutations at the end of this file. *)
 From SV Require Import Exporter.AcceptCases Exporter.AcceptLemmas.
 
@@ -17,44 +20,54 @@ Proof. exact C20_impl_all. Qed.
 
 (** Unrestricted [serves_next]: after ANY finite list of connection scripts a
     well-formed request is being answered (200, or 500 when the handler fails)
-    within [bound] steps; the process never exits. *)
+    within [bound] steps, from a buffer that holds exactly what the handler
+    appended for THIS request; the process never exits; the client receives
+    [reply_bytes (c_hnd last)] whatever happened before. *)
 Theorem C20_serves_next : forall pre last,
   no_accept_err pre = true -> wellformed_get last = true ->
   let items := pre ++ [Conn last] in
   (exists n, (n <= bound items)%nat /\
      iter n step_impl (init items)
-     = mkCfg (Responding (status_of (c_hnd last)) WOk) [] (map expected_fixed_item pre))
+     = mkCfg (Responding (status_of (c_hnd last)) WOk) [] (map expected_fixed_item pre)
+             (hnd_out (c_hnd last)) (expected_wire pre))
   /\ (forall m, st (iter m step_impl (init items)) <> Exited)
-  /\ run items = (map expected_fixed_item pre ++ [OStatus (status_of (c_hnd last))], FIdle).
+  /\ run items = (map expected_fixed_item pre ++ [OStatus (status_of (c_hnd last))], FIdle)
+  /\ run_wire items = expected_wire pre ++ [reply_bytes (c_hnd last)].
 Proof. exact serves_next_impl. Qed.
 
+(** A client that resets while its response is pending makes write_all fail -
+    on the 200 path and on the 500 path alike; neither takes the exporter down:
+    the next well-formed request is answered (instance of the theorem above,
+    spelled out because it is the combination of TWO faults). *)
+Theorem C20_write_error_on_500_survived : forall o e last,
+  wellformed_get last = true ->
+  run [Conn (mkConn (mk_chunk GET_BYTES []) (HErr e) WErr true);
+       Conn (mkConn (mk_chunk GET_BYTES []) (HOk o) WErr true); Conn last]
+  = ([ODropped; ODropped; OStatus (status_of (c_hnd last))], FIdle).
+Proof. exact write_errors_survived. Qed.
+
 (** The only way out of [main] that is left is a failing listener. *)
-Theorem C20_accept_error_exits : forall n p lg,
-  iter (S n) step_impl (acc_cfg (AcceptErr :: p) lg) = mkCfg Exited p lg.
+Theorem C20_accept_error_exits : forall n p lg rb wr,
+  iter (S n) step_impl (accB (AcceptErr :: p) lg rb wr) = mkCfg Exited p lg rb wr.
 Proof. exact accept_error_exits_impl. Qed.
 
 (** Non-vacuity: hostile clients (premature close, 3000 bytes without terminator,
-    reset, failing handler, write error) followed by a well-formed GET satisfy the
-    hypotheses of [C20_serves_next] and the run is as stated. *)
+    reset, failing handler, write error on the 200 path, failing handler AND write
+    error) followed by a well-formed GET satisfy the hypotheses of
+    [C20_serves_next] and the run is as stated. *)
 Example C20_nonvacuous :
-  no_accept_err [Conn (mkConn [REof] HOk WOk false);
-                 Conn (mkConn [RChunk 65 (repeat 65 2999)] HOk WOk false);
-                 Conn (mkConn [RChunk 71 [69]; RErr] HOk WOk true);
-                 Conn (mkConn (mk_chunk GET_BYTES []) HErr WOk false);
-                 Conn (mkConn (mk_chunk GET_BYTES []) HOk WErr true)] = true
+  no_accept_err hostile_pre = true
   /\ wellformed_get good_get = true
-  /\ run [Conn (mkConn [REof] HOk WOk false);
-          Conn (mkConn [RChunk 65 (repeat 65 2999)] HOk WOk false);
-          Conn (mkConn [RChunk 71 [69]; RErr] HOk WOk true);
-          Conn (mkConn (mk_chunk GET_BYTES []) HErr WOk false);
-          Conn (mkConn (mk_chunk GET_BYTES []) HOk WErr true);
-          Conn good_get]
-     = ([ODropped; ODropped; ODropped; OStatus 500; ODropped; OStatus 200], FIdle).
+  /\ run (hostile_pre ++ [Conn good_get])
+     = ([ODropped; ODropped; ODropped; OStatus 500; ODropped; ODropped; OStatus 200], FIdle)
+  /\ run_wire (hostile_pre ++ [Conn good_get]) = [ERR_BYTES; [50; 48; 48]].
 Proof. vm_compute. repeat split; reflexivity. Qed.
 
 (** * ---- HISTORIC: the loop before the F19 repair ([step_before_fix]) ----
     Why the repair was needed: the three refutations, for ALL n, and the guarded
-    statement that was the best one could prove of that loop. *)
+    statement that was the best one could prove of that loop.  Control flow
+    only: [acc_cfg] / [rd_cfg] are configurations with the empty buffer and the
+    empty wire, which that loop never touches. *)
 
 Theorem C20_before_fix_eof_spins : forall n h w g rest,
   iter (S n) step_before_fix (init (Conn (mkConn [REof] h w g) :: rest)) = rd_cfg [REof] h w [] rest [].
@@ -75,14 +88,14 @@ Proof. exact oversize_spins. Qed.
 Theorem C20_before_fix_reset_exits : forall c p lg,
   kind_of c = KReset \/ kind_of c = KGetRst ->
   forall n, (2 + length (c_reads c) <= n)%nat ->
-    iter n step_before_fix (acc_cfg (Conn c :: p) lg) = mkCfg Exited p lg.
+    iter n step_before_fix (acc_cfg (Conn c :: p) lg) = mkCfg Exited p lg [] [].
 Proof. exact reset_exits. Qed.
 
 Theorem C20_before_fix_refuted :
-  run_with step_before_fix [Conn (mkConn [REof] HOk WOk false); Conn good_get] = ([ONone; ONone], FSpin)
-  /\ run_with step_before_fix [Conn (mkConn [RChunk 65 (repeat 65 2999)] HOk WOk false); Conn good_get]
+  run_with step_before_fix [Conn (mkConn [REof] (HOk []) WOk false); Conn good_get] = ([ONone; ONone], FSpin)
+  /\ run_with step_before_fix [Conn (mkConn [RChunk 65 (repeat 65 2999)] (HOk []) WOk false); Conn good_get]
      = ([ONone; ONone], FSpin)
-  /\ run_with step_before_fix [Conn (mkConn [RChunk 71 [69]; RErr] HOk WOk true); Conn good_get]
+  /\ run_with step_before_fix [Conn (mkConn [RChunk 71 [69]; RErr] (HOk []) WOk true); Conn good_get]
      = ([ONone; ONone], FExit).
 Proof.
   exact (conj serves_next_refuted_eof (conj serves_next_refuted_oversize serves_next_refuted_reset)).
